@@ -76,7 +76,7 @@ def effective_options(opts):
 
 
 def gen_apps(rng, specs, n_apps=(1, 3), n_progs=(1, 3), managed_p=0.85, max_numprocs=2, loads=(0, 30),
-             seq_max=3, per_instance_diff=0.0, allow_wait_exit=False, distribution=None, restricted_p=None,
+             seq_max=3, per_instance_diff=0.0, allow_wait_exit=False, distribution=None, restricted_p=None, wait_exit_p=None,
              startsecs=(0, 4), stopwaitsecs=(1, 4), strategies=True, identifiers_p=0.3,
              autorestart=('false', 'false', 'unexpected'), supvisors_failure_p=0.0):
     """ Returns (rules_model, groups_by_nick).
@@ -117,7 +117,7 @@ def gen_apps(rng, specs, n_apps=(1, 3), n_progs=(1, 3), managed_p=0.85, max_nump
                 prog['start_sequence'] = rng.randint(0, seq_max)
                 prog['stop_sequence'] = rng.choice([None, rng.randint(0, seq_max)])
                 prog['required'] = rng.random() < 0.5
-                prog['wait_exit'] = allow_wait_exit and rng.random() < 0.25
+                prog['wait_exit'] = allow_wait_exit and rng.random() < (0.25 if wait_exit_p is None else wait_exit_p)
                 prog['expected_loading'] = rng.randint(*loads)
                 prog['identifiers'] = ['*'] if rng.random() > identifiers_p else \
                     rng.sample(nicks, rng.randint(1, len(nicks)))
